@@ -22,6 +22,12 @@ def run_property(pid: str, tier: str, only=None, src=None, quiet=False) -> int:
                 "dynamic features defeat lexical name resolution (trusted base 1.5): " + "; ".join(prog.dynamic_hits)
             )
         rep.extra.update(prog.stats())
+        # E9: what the normalisation pre-pass did to the sources the rules look at, and what it assumes
+        norm_info = {m: {k: v for k, v in info.items() if v} for m, info in sorted(prog.normalised.items())}
+        rep.extra["normalisation"] = {m: v for m, v in norm_info.items() if v}
+        rep.assume("normaliser: distinct local names do not alias unless one is visibly built from the other (copy propagation is alias-insensitive across names)")
+        rep.assume("normaliser: elements of the entry table and of the item lists are never None (loop lookups are read as next(.., None) + `is None`)")
+        rep.assume("normaliser: run descriptors are slice(a, b) objects without a step (slice(x.start, x.stop) is x)")
         mod.run(prog, rep)
         if tier == "thorough" and hasattr(mod, "thorough"):
             mod.thorough(prog, rep)
